@@ -336,7 +336,8 @@ fn operator_bits<N: Numeric + 'static + std::ops::BitAnd<Output = N> + std::ops:
 
 fn nz_is_zero<T: ArrayElement>(e: &T) -> bool { *e == T::zero() }
 fn lane<T: ArrayElement + 'static>(f: &str) -> Box<dyn FnMut(&Array<T>) -> Result<Array<T>, ArrayError>> {
-    if f == "rev" { Box::new(|x: &Array<T>| x.flip(None)) }
+    if let Some(b) = lane_st::<T>(f) { b }
+    else if f == "rev" { Box::new(|x: &Array<T>| x.flip(None)) }
     else if let Some(k) = f.strip_prefix("ct") { let k: usize = k.parse().unwrap(); Box::new(move |x: &Array<T>| x.cycle_take(k)) }
     else { Box::new(|x: &Array<T>| Ok(x.clone())) }
 }
@@ -346,7 +347,7 @@ fn run_modelled(st: &[V], name: &str, a: &[&str], ty: &str) -> Option<Out> {
     macro_rules! g { ($i:expr) => { match get(st, a[$i]) { Some(v) => v, None => return Some(skip()) } }; }
     macro_rules! gl { ($i:expr) => { match getl(st, a[$i]) { Some(v) => v, None => return Some(skip()) } }; }
     // modelled since the store machine was extended; the calls live in `run_unmodelled` (shared with their `u.` spelling)
-    if MODELLED_LATER.contains(&name) { return run_unmodelled(st, name, a, ty); }
+    if MODELLED_LATER.contains(&name) && !(name == "filter_map" && a.get(3) == Some(&"cnt")) { return run_unmodelled(st, name, a, ty); }
     Some(match name {
         // ---- constructors
         "new" => ctor_all!(ty, |T| Array::<T>::new(tags::<T>(us(a[0]), a[1].parse().unwrap()), ul(a[2]))),
@@ -418,6 +419,15 @@ fn run_modelled(st: &[V], name: &str, a: &[&str], ty: &str) -> Option<Out> {
         "repeat" => on_all!(g!(0), |x| x.repeat(&ul(a[1]), ousz(a[2]))),
         "trim_zeros" => on_all!(g!(0), |x| x.trim_zeros()),
         // ---- closures
+        // the spellings with a last field `cnt` hand the operation a COUNTING closure (its answer depends on the number of earlier calls, not
+        // on the index): called once per element in flat order it is the pure closure of the plain spelling, which is what the model runs
+        "map" if a.get(1) == Some(&"cnt") => on_all_p!(g!(0), |x| { let mut k = 0usize; x.map(|e| { k += 1; e.clone() }) }),
+        "map_e" if a.get(1) == Some(&"cnt") => on_all_p!(g!(0), |x| { let mut k = 0usize; x.map_e(|i, e| { if i != k { bad(format!("map_e offered index {i} at call {k}")); } k += 1; e.clone() }) }),
+        "filter_e" | "filter" if a.get(3) == Some(&"cnt") => { let (m, t) = (us(a[1]).max(1), us(a[2]));
+            if name == "filter" { on_all_p!(g!(0), |x| { let mut k = 0usize; x.filter(|_| { let r = k % m < t; k += 1; r }) }) } else { on_all_p!(g!(0), |x| { let mut k = 0usize; x.filter_e(|_, _| { let r = k % m < t; k += 1; r }) }) } }
+        "filter_map_e" | "filter_map" if a.get(3) == Some(&"cnt") => { let (m, t) = (us(a[1]).max(1), us(a[2]));
+            if name == "filter_map" { on_all_p!(g!(0), |x| { let mut k = 0usize; x.filter_map(|e| { let r = k % m < t; k += 1; if r { Some(e.clone()) } else { None } }) }) }
+            else { on_all_p!(g!(0), |x| { let mut k = 0usize; x.filter_map_e(|_, e| { let r = k % m < t; k += 1; if r { Some(e.clone()) } else { None } }) }) } }
         "map" => on_all_p!(g!(0), |x| x.map(|e| e.clone())),
         "map_e" => on_all_p!(g!(0), |x| x.map_e(|_, e| e.clone())),
         "filter_e" => { let (m, t) = (us(a[1]), us(a[2])); on_all_p!(g!(0), |x| x.filter_e(|i, _| i % m.max(1) < t)) }
@@ -681,6 +691,125 @@ fn re_fold<T: ArrayElement>(x: &Array<T>) -> Result<Array<T>, ArrayError> {
     if n != total { bad(format!("fold whose closure calls fold visits {n} of {total} elements")); }
     x.ravel()
 }
+// ---------------------------------------------------------------- robustness streams, part 5 (class 23): closures whose answers change between calls
+
+/// A closure with memory (the closure parameters of the crate are `FnMut`).  `cnt`: true when (number of earlier calls) % p < q
+/// (`cnt 2 1` = every other call); `first`: true for the first p calls; `seen`: true for the first occurrence of a value; `budget`: true
+/// for at most p non-zero elements; `run`: true when the element differs from the one offered before; `toggle`: a flag that flips on
+/// every non-zero element.  The state also records whether the indices it was offered were 0, 1, 2, ... (`order_ok`).
+struct St<T: ArrayElement> { kind: String, p: usize, q: usize, calls: usize, order_ok: bool, seen: Vec<T>, prev: Option<T>, left: usize, flag: bool }
+impl<T: ArrayElement> St<T> {
+    fn new(kind: &str, p: usize, q: usize) -> Self { St { kind: kind.to_string(), p, q, calls: 0, order_ok: true, seen: vec![], prev: None, left: p, flag: false } }
+    fn ask(&mut self, i: Option<usize>, e: &T) -> bool {
+        let k = self.calls; self.calls += 1;
+        if let Some(i) = i { if i != k { self.order_ok = false; } }
+        match self.kind.as_str() {
+            "cnt" => k % self.p.max(1) < self.q,
+            "first" => k < self.p,
+            "seen" => if self.seen.iter().any(|s| same_elem(s, e)) { false } else { self.seen.push(e.clone()); true },
+            "budget" => if self.left > 0 && !nz_is_zero(e) { self.left -= 1; true } else { false },
+            "run" => { let start = self.prev.as_ref().map_or(true, |p| !same_elem(p, e)); self.prev = Some(e.clone()); start }
+            "toggle" => { if !nz_is_zero(e) { self.flag = !self.flag; } self.flag }
+            _ => true,
+        }
+    }
+    /// the mapping closure built on the predicate: the element itself when the predicate says so, else the element offered one call earlier
+    fn pass(&mut self, i: Option<usize>, e: &T) -> T {
+        let held = self.prev.clone();
+        let keep = self.ask(i, e);
+        if self.kind != "run" { self.prev = Some(e.clone()); }
+        if keep { e.clone() } else { held.unwrap_or_else(|| e.clone()) }
+    }
+}
+/// A closure-taking operation driven with a stateful closure.  The expectation is what ONE call of the closure per element in flat
+/// order gives (computed here on the element list with a fresh copy of the same closure state - it is also what the store machine's
+/// `filterE` / `mapE` … compute): result shape, result elements, number of calls, indices offered.
+fn st_run<T: ArrayElement + 'static>(op: &str, x: &Array<T>, kind: &str, p: usize, q: usize) -> Result<Array<T>, ArrayError> {
+    let els = x.get_elements()?;
+    let (n, shape) = (els.len(), x.get_shape()?);
+    let filtering = op.starts_with("st_filter");
+    let mut w = St::<T>::new(kind, p, q);
+    let indexed = op.ends_with("_e");
+    let want: Vec<T> = if filtering { els.iter().enumerate().filter(|(i, e)| w.ask(if indexed { Some(*i) } else { None }, e)).map(|(_, e)| e.clone()).collect() }
+        else { els.iter().enumerate().map(|(i, e)| w.pass(if indexed { Some(i) } else { None }, e)).collect() };
+    let want_shape = if filtering { vec![want.len()] } else { shape.clone() };
+    let mut s = St::<T>::new(kind, p, q);
+    let what = format!("{} with a stateful closure ({kind} {p} {q}) on an array of shape {:?}", &op[3..], shape);
+    let got: Result<Array<T>, ArrayError> = must_not_panic(&what, || match op {
+        "st_filter" => x.filter(|e| s.ask(None, e)),
+        "st_filter_e" => x.filter_e(|i, e| s.ask(Some(i), e)),
+        "st_filter_map" => x.filter_map(|e| if s.ask(None, e) { Some(e.clone()) } else { None }),
+        "st_filter_map_e" => x.filter_map_e(|i, e| if s.ask(Some(i), e) { Some(e.clone()) } else { None }),
+        "st_map" => x.map(|e| s.pass(None, e)),
+        "st_map_e" => x.map_e(|i, e| s.pass(Some(i), e)),
+        _ => Err(ArrayError::NotImplemented),
+    });
+    if s.calls != n { bad(format!("{what}: the closure was called {} times for {n} elements", s.calls)); }
+    if !s.order_ok { bad(format!("{what}: the closure was not offered the indices 0, 1, 2, ... in this order")); }
+    match &got {
+        Err(_) => bad(format!("{what}: refused")),
+        Ok(z) => {
+            let (zs, ze) = (z.get_shape().unwrap_or_default(), z.get_elements().unwrap_or_default());
+            if zs != want_shape || ze.len() != want.len() { bad(format!("{what}: one call per element in flat order gives shape {:?} with {} elements, the crate returned shape {:?} holding {} elements", want_shape, want.len(), zs, ze.len())); }
+            else if !ze.iter().zip(&want).all(|(a, b)| same_elem(a, b)) { bad(format!("{what}: the result holds other elements than one call per element in flat order gives")); }
+        }
+    }
+    got
+}
+/// `fold` / `for_each` / `for_each_e` with observing closures and unusual seeds: every element visited once, in flat order; the seed is
+/// handed to the first call bit for bit and returned untouched by an array without elements
+fn st_visit<T: ArrayElement + 'static>(op: &str, x: &Array<T>, seed: &str) -> Result<NoArr, ArrayError> {
+    let els = x.get_elements()?;
+    let n = els.len();
+    let what = format!("{} with an observing closure on an array of shape {:?}", &op[3..], x.get_shape()?);
+    let mut seen: Vec<T> = vec![];
+    let mut order_ok = true;
+    match op {
+        "st_for_each" => { must_not_panic(&what, || x.for_each(|e| seen.push(e.clone())))?; }
+        "st_for_each_e" => { must_not_panic(&what, || x.for_each_e(|i, e| { if i != seen.len() { order_ok = false; } seen.push(e.clone()); }))?; }
+        _ => {
+            let s0: f64 = match seed { "nan" => f64::NAN, "inf" => f64::INFINITY, "-inf" => f64::NEG_INFINITY, "-0" => -0.0, "max" => f64::MAX, "tiny" => 5e-324, _ => 0.0 };
+            let mut first: Option<u64> = None;
+            let r = must_not_panic(&what, || x.fold(s0, |acc: &f64, e: &T| { if first.is_none() { first = Some(acc.to_bits()); } seen.push(e.clone()); *acc + 1.0 }))?;
+            let want = els.iter().fold(s0, |a, _| a + 1.0);
+            if r.to_bits() != want.to_bits() { bad(format!("{what}: seed {seed} folded with `acc + 1.0` over {n} elements gives {want:?}, the crate returned {r:?}")); }
+            if let Some(f) = first { if f != s0.to_bits() { bad(format!("{what}: the first call received {:?} instead of the seed {seed}", f64::from_bits(f))); } }
+            // the accumulator as a visit counter (S = usize)
+            let mut k = 0usize;
+            let c = x.fold(0usize, |acc: &usize, _| { if *acc != k { order_ok = false; } k += 1; *acc + 1 })?;
+            if c != n || k != n { bad(format!("{what}: a counting fold visits {k} elements and returns {c}, the array holds {n}")); }
+        }
+    }
+    if seen.len() != n { bad(format!("{what}: the closure was called {} times for {n} elements", seen.len())); }
+    else if !seen.iter().zip(&els).all(|(a, b)| same_elem(a, b)) { bad(format!("{what}: the elements were not visited in flat order")); }
+    if !order_ok { bad(format!("{what}: the indices / accumulators offered were not 0, 1, 2, ...")); }
+    Ok(NoArr)
+}
+/// lane closures with memory for `apply_along_axis`: `alt` reverses every other lane, `grow<k>` answers with lanes of changing length
+/// (`cycle_take(k + calls % 2)`), `once<k>` answers the FIRST lane with `k` elements and the others unchanged
+fn lane_st<T: ArrayElement + 'static>(f: &str) -> Option<Box<dyn FnMut(&Array<T>) -> Result<Array<T>, ArrayError>>> {
+    let mut calls = 0usize;
+    if f == "alt" { return Some(Box::new(move |x: &Array<T>| { calls += 1; if calls % 2 == 0 { x.flip(None) } else { Ok(x.clone()) } })); }
+    if let Some(k) = f.strip_prefix("grow") { let k: usize = k.parse().ok()?; return Some(Box::new(move |x: &Array<T>| { calls += 1; x.cycle_take(k + calls % 2) })); }
+    if let Some(k) = f.strip_prefix("once") { let k: usize = k.parse().ok()?; return Some(Box::new(move |x: &Array<T>| { calls += 1; if calls == 1 { x.cycle_take(k) } else { Ok(x.clone()) } })); }
+    None
+}
+/// `apply_along_axis` with a stateful lane closure: the closure is called once per lane with a rank-1 lane of the axis length
+fn st_apply<T: ArrayElement + 'static>(x: &Array<T>, ax: usize, f: &str) -> Result<Array<T>, ArrayError> {
+    let shape = x.get_shape()?;
+    let n: usize = shape.iter().product();
+    let what = format!("apply_along_axis({ax}) with a stateful lane closure ({f}) on an array of shape {:?}", shape);
+    let mut inner = lane_st::<T>(f).ok_or(ArrayError::NotImplemented)?;
+    let (mut calls, mut lanes_ok) = (0usize, true);
+    let got = x.apply_along_axis(ax, |l: &Array<T>| { calls += 1; if l.get_shape().ok() != shape.get(ax).map(|&d| vec![d]) { lanes_ok = false; } chk(l); inner(l) });
+    if ax < shape.len() && n > 0 {
+        if calls != n / shape[ax] { bad(format!("{what}: the closure was called {calls} times for {} lanes", n / shape[ax])); }
+        if !lanes_ok { bad(format!("{what}: a lane handed to the closure is not a rank-1 array of the axis length")); }
+        if f == "alt" { match &got { Ok(z) if z.get_shape().ok() == Some(shape.clone()) => {} Ok(z) => bad(format!("{what}: result shape {:?}", z.get_shape().unwrap_or_default())), Err(_) => bad(format!("{what}: refused")) } }
+    }
+    got
+}
+
 /// std-trait steps: `FromIterator` from every kind of iterator (exact, filtered, chained, cut short, unbounded, empty), `IntoIterator` by
 /// value and by reference, `Clone::clone` / `clone_from` through every std path, and closures that re-enter the operation
 fn run_std_traits(st: &[V], name: &str, a: &[&str], ty: &str) -> Option<Out> {
@@ -730,12 +859,16 @@ fn run_std_traits(st: &[V], name: &str, a: &[&str], ty: &str) -> Option<Out> {
         "re_filter_map" => { let (m, t) = (p(1).max(1), p(2)); on_all_p!(g!(0), |x| re_filter_map(x, m, t)) }
         "re_apply" => { let ax = p(1); on_all_p!(g!(0), |x| re_apply(x, ax)) }
         "re_fold" => on_all_p!(g!(0), |x| re_fold(x)),
+        // ---- closures whose answers change between calls (class 23)
+        "st_filter" | "st_filter_e" | "st_filter_map" | "st_filter_map_e" | "st_map" | "st_map_e" => { let (k, pp, q) = (a.get(1).copied().unwrap_or("cnt"), p(2), p(3)); on_all_p!(g!(0), |x| st_run(name, x, k, pp, q)) }
+        "st_fold" | "st_for_each" | "st_for_each_e" => { let seed = a.get(1).copied().unwrap_or("0"); on_all_p!(g!(0), |x| st_visit(name, x, seed)) }
+        "st_apply" => { let (ax, f) = (p(1), a.get(2).copied().unwrap_or("alt")); on_all_p!(g!(0), |x| st_apply(x, ax, f)) }
         _ => return None,
     })
 }
 
 fn run_unmodelled(st: &[V], name: &str, a: &[&str], ty: &str) -> Option<Out> {
-    if name.starts_with("it_") || name.starts_with("clone") || name.starts_with("re_") { return run_std_traits(st, name, a, ty); }
+    if name.starts_with("it_") || name.starts_with("clone") || name.starts_with("re_") || name.starts_with("st_") { return run_std_traits(st, name, a, ty); }
     if !a.is_empty() { if let Some(o) = str_ops(st, name, a) { return Some(o); } }
     macro_rules! g { ($i:expr) => { match get(st, a[$i]) { Some(v) => v, None => return Some(skip()) } }; }
     Some(match name {
@@ -744,7 +877,7 @@ fn run_unmodelled(st: &[V], name: &str, a: &[&str], ty: &str) -> Option<Out> {
         "insert_axis" => on_all2!(g!(0), g!(2), |x, y| x.insert(&ul(a[1]), y, ousz(a[3]))),
         "for_each" => on_all_p!(g!(0), |x| { let mut n = 0usize; x.for_each(|_| n += 1).map(|_| NoArr) }),
         "fold" => on_all_p!(g!(0), |x| x.fold(0usize, |acc, _| acc + 1).map(|_| NoArr)),
-        "filter_map" => on_all_p!(g!(0), |x| x.filter_map(|e| if nz_is_zero(e) { None } else { Some(e.clone()) })),
+        "filter_map" if a.get(3) != Some(&"cnt") => on_all_p!(g!(0), |x| x.filter_map(|e| if nz_is_zero(e) { None } else { Some(e.clone()) })),
         "frexp" => on_types!(g!(0), [F64], |x| x.frexp()),
         "logspace" => ctor_num!(ty, |T| Array::<T>::logspace(<T as Numeric>::from_f64(a[0].parse().unwrap()), <T as Numeric>::from_f64(a[1].parse().unwrap()), ousz(a[2]), obool(a[3]), None)),
         "geomspace" => ctor_num!(ty, |T| Array::<T>::geomspace(<T as Numeric>::from_f64(a[0].parse().unwrap()), <T as Numeric>::from_f64(a[1].parse().unwrap()), ousz(a[2]), obool(a[3]))),
@@ -780,7 +913,8 @@ fn run_step(st: &[V], step: &str, bad: &mut Vec<String>) -> Out {
     IN_TWIN.with(|c| c.set(None));
     let r = catch_unwind(AssertUnwindSafe(|| match name.strip_prefix("u.").or_else(|| name.strip_prefix("s.")) { Some(n) => run_unmodelled(st, n, &a, ty), None => run_modelled(st, name, &a, ty) }));
     IN_TWIN.with(|c| c.set(None));
-    BAD.with(|b| bad.extend(b.borrow_mut().drain(..)));
+    // the property's own finding (an inconsistent array) is reported before the native expectations of the same step
+    BAD.with(|b| { let mut m: Vec<String> = b.borrow_mut().drain(..).collect(); m.sort_by_key(|x| !x.contains("inconsistent array")); bad.extend(m); });
     let twins: Vec<(&'static str, String)> = TWIN.with(|t| t.borrow_mut().drain(..).collect());
     let o = match r { Ok(Some(o)) => o, Ok(None) => Out { cls: "unknown", v: V::Nil }, Err(_) => Out { cls: "panic", v: V::Nil } };
     // both receivers: the chained call on Ok(array) must answer like the plain call (outcome class and shapes)
@@ -821,6 +955,8 @@ const OPS_STD: [&str; 41] = ["u.it_empty", "u.it_once", "u.it_range", "u.it_rang
     "u.it_collect", "u.it_ref", "u.it_for", "u.it_rev", "u.it_filter", "u.it_filter_ref", "u.it_filter_map", "u.it_flatten", "u.it_take_while", "u.it_skip_while", "u.it_map_while",
     "u.it_scan", "u.it_skip", "u.it_take", "u.it_step_by", "u.it_cycle_take", "u.it_flat_map", "u.it_peek_fuse", "u.it_chain", "u.it_chain_filter", "u.it_zip_first",
     "u.clone", "u.clone_from", "u.clone_from", "u.clone_from", "u.clone_from_list", "u.clone_from_list", "u.re_map", "u.re_filter", "u.re_filter_map", "u.re_apply", "u.re_fold", "u.it_filter"];
+/// robustness streams part 5: closure-taking operations driven with closures that remember their earlier calls (`u.` = monitor + native expectation)
+const OPS_ST: [&str; 10] = ["u.st_filter", "u.st_filter_e", "u.st_filter_map", "u.st_filter_map_e", "u.st_map", "u.st_map_e", "u.st_fold", "u.st_for_each", "u.st_for_each_e", "u.st_apply"];
 /// operations that get long, unsorted, mixed-spelling argument lists in the part-2 streams
 const OPS_LONG: [&str; 20] = ["transpose", "moveaxis", "expand_dims", "squeeze", "flip", "roll", "delete", "insert", "atleast", "array_split", "split", "concatenate", "stack",
     "vstack", "hstack", "dstack", "column_stack", "row_stack", "broadcast_arrays", "reshape"];
@@ -831,10 +967,12 @@ fn is_int(t: &str) -> bool { matches!(t, "i32" | "i64" | "u8" | "usize" | "isize
 
 struct G { rng: Rng, steps: Vec<String>, store: Vec<V>, faithful: Vec<bool>, ty: &'static str, wide: bool, big: bool,
     /// robustness streams part 2: ranks up to 8, long unsorted argument lists, aliased operands, the std-trait steps
-    r3: bool }
+    r3: bool,
+    /// robustness streams part 5: closures with memory in place of the pure ones, axis lists that name one axis in both spellings
+    r5: bool }
 
 impl G {
-    fn new(seed: u64, ty: &'static str) -> G { G { rng: Rng::new(seed), steps: vec![], store: vec![], faithful: vec![], ty, wide: false, big: false, r3: false } }
+    fn new(seed: u64, ty: &'static str) -> G { G { rng: Rng::new(seed), steps: vec![], store: vec![], faithful: vec![], ty, wide: false, big: false, r3: false, r5: false } }
     fn coin(&mut self, pct: usize) -> bool { self.rng.below(100) < pct }
     fn dim(&mut self) -> usize {
         // robustness stream: zero-length axes far more often (and in any position), axis lengths 6..17
@@ -863,7 +1001,7 @@ impl G {
         if std::env::var_os("C01_TIME").is_some() && t0.elapsed().as_millis() > 150 { eprintln!("{} ms  {}  (on {})", t0.elapsed().as_millis(), step, self.steps.first().map_or("", |s| s.as_str())); }
         let name = label_of(&step).to_string();
         let refs = step_refs(&step);
-        let text = if name.starts_with("u.") { let r = record(&o); format!("{}|={}", step, if matches!(r.as_str(), "E" | "P" | "S" | "N") { "N".to_string() } else { r }) } else { step };
+        let text = if name.starts_with("u.") { let r = record(&o); format!("{}|={}", step, if matches!(r.as_str(), "E" | "P" | "S" | "N") { "N".to_string() } else { ext_field(&r) }) } else { step };
         let f = FAITHFUL.contains(&name.as_str()) && refs.iter().all(|&r| self.faithful.get(r).copied().unwrap_or(false))
             && (matches!(&o.v, V::I64(_)) || matches!(&o.v, V::L(l) if l.iter().all(|x| matches!(x, V::I64(_)))));
         self.steps.push(text);
@@ -919,6 +1057,7 @@ impl G {
     /// emit one step of operation `op` (plus helper constructor steps); false = not applicable now
     fn emit(&mut self, op: &str) -> bool {
         if OPS_STD.contains(&op) { return self.emit_std(op); }
+        if OPS_ST.contains(&op) { return self.emit_st(op); }
         let base = base_of(op).to_string();
         let b = base.as_str();
         let ty = self.ty;
@@ -1096,16 +1235,28 @@ impl G {
                 else { return false; }
             }
         };
+        let mut step = step;
+        if self.r5 {
+            // class 23: the counting / remembering closure in place of the pure one (same model step: one call per element in flat order)
+            if self.coin(45) { match b {
+                "filter_e" | "filter_map_e" => step.push_str("|cnt"),
+                "filter" | "filter_map" if !op.starts_with("u.") => { let m = 1 + self.rng.below(4); step = format!("@{}|{}|{}|cnt", i, m, self.rng.below(m + 1)); }
+                "map" | "map_e" => step.push_str("|cnt"),
+                "apply_along_axis" => { let f: Vec<&str> = step.split('|').collect(); step = format!("{}|{}|alt", f[0], f[1]); }
+                _ => {}
+            } }
+            // class 24: one axis named twice, in the two spellings
+            if self.coin(30) { step = self.mix_step(b, step, r); }
+        }
         if ["vdot", "outer", "inner", "matmul", "dot"].contains(&b) && !op.starts_with("u.") {
             // the products model (C14) does not speak about operands without elements: monitor only there
             if step_refs(&format!("x|{}", step)).iter().any(|&k| self.sh(k).iter().product::<usize>() == 0) { name = format!("u.{}", b); }
         }
-        if VALDEP.contains(&b) && !op.starts_with("u.") {
+        if VALDEP.contains(&b) && !op.starts_with("u.") && !step.ends_with("|cnt") {
             let all_f = step_refs(&format!("x|{}", step)).iter().all(|&k| self.faithful.get(k).copied().unwrap_or(false));
             if !all_f { name = format!("u.{}", b); }
         }
         // the value tie: on an i64 chain whose values are the model's tags the step asks the driver for the element values too
-        let mut step = step;
         if VALUE_TIED.contains(&name.as_str()) && t == "i64" {
             let rs = step_refs(&format!("x|{}", step));
             if rs.iter().all(|&k| self.faithful.get(k).copied().unwrap_or(false) && matches!(&self.store[k], V::I64(_))) { step.push_str("|v"); }
@@ -1114,6 +1265,53 @@ impl G {
         true
     }
 
+    /// class 24: one axis of a rank-`r` array named twice in the two spellings (k and k - r) at a random pair of positions
+    fn mix_list(&mut self, v: &mut Vec<isize>, r: usize) {
+        if r == 0 || v.is_empty() { return; }
+        if v.len() == 1 { v.push(0); }
+        let a = self.rng.below(v.len());
+        let mut c = self.rng.below(v.len() - 1); if c >= a { c += 1; }
+        v[c] = if v[a] >= 0 { v[a] - r as isize } else { v[a] + r as isize };
+    }
+    fn mix_step(&mut self, b: &str, step: String, r: usize) -> String {
+        let mut f: Vec<String> = step.split('|').map(str::to_string).collect();
+        let islist = |x: &str| x != "none" && x != "-" && x.split(',').all(|y| y.parse::<isize>().is_ok());
+        let k = match b { "transpose" | "expand_dims" | "squeeze" | "flip" => 1, "moveaxis" => 1 + self.rng.below(2), "roll" | "rot90" | "norm" => 2, _ => return step };
+        if k >= f.len() || !islist(&f[k]) { return step; }
+        let mut v = il(&f[k]);
+        if v.len() < 2 && (b == "moveaxis" || b == "roll" || b == "norm") { return step; }
+        let rank = if b == "expand_dims" { r + v.len().max(2) } else { r };
+        self.mix_list(&mut v, rank);
+        f[k] = show_list(&v);
+        f.join("|")
+    }
+    /// a closure state for the `u.st_*` steps
+    fn st_kind(&mut self, n: usize, small_alphabet: bool) -> String {
+        match self.rng.below(8) {
+            0 | 1 => { let m = 2 + self.rng.below(4); format!("cnt|{}|{}", m, self.rng.below(m + 1)) }
+            2 => format!("first|{}|0", *self.rng.pick(&[0, 1, 2, n / 2, n.saturating_sub(1), n, n + 1])),
+            3 | 4 => if n <= 2000 || small_alphabet { "seen|0|0".to_string() } else { "first|1000|0".to_string() },
+            5 => format!("budget|{}|0", *self.rng.pick(&[0usize, 1, 3, 7])),
+            6 => "run|0|0".to_string(),
+            _ => "toggle|0|0".to_string(),
+        }
+    }
+    /// the steps with stateful closures (see `st_run`, `st_visit`, `st_apply`)
+    fn emit_st(&mut self, op: &str) -> bool {
+        let i = match self.pick(&|_| true) { Some(i) => i, None => return false };
+        let s = self.sh(i);
+        let (r, n) = (s.len(), s.iter().product::<usize>());
+        let step = match &op[2..] {
+            "st_fold" => format!("@{i}|{}", *self.rng.pick(&["nan", "inf", "-inf", "-0", "0", "max", "tiny"])),
+            "st_for_each" | "st_for_each_e" => format!("@{i}"),
+            "st_apply" => { if n > 600 { return false; } let d = s.get(0).copied().unwrap_or(1);
+                let f = match self.rng.below(6) { 0 | 1 => "alt".to_string(), 2 => format!("grow{}", self.rng.below(3)), 3 => format!("grow{}", d), 4 => format!("once{}", self.rng.below(4)), _ => format!("once{}", d + 1) };
+                format!("@{i}|{}|{}", self.uaxis(r), f) }
+            _ => { let small = matches!(self.tyi(i), "u8" | "i8" | "bool"); format!("@{i}|{}", self.st_kind(n, small)) }
+        };
+        self.push(format!("{op}|{step}"));
+        true
+    }
     fn count(&mut self) -> usize { *self.rng.pick(&[0usize, 1, 2, 3, 5, 8, 10, 17, 33, 100, 257]) }
     /// the std-trait steps (see `run_std_traits`)
     fn emit_std(&mut self, op: &str) -> bool {
@@ -1211,6 +1409,7 @@ impl G {
                 let p = self.rng.perm(f.len()); let t: Vec<usize> = p.iter().map(|&k| f[k]).collect(); format!("@{i}|{}", show_list(&t)) }
             _ => return self.emit(op),
         };
+        let step = if self.r5 && self.coin(30) { self.mix_step(op, step, r) } else { step };
         self.push(format!("{op}|{step}"));
         true
     }
@@ -1253,7 +1452,7 @@ fn all_ops() -> Vec<String> {
 fn types_for(op: &str) -> Vec<&'static str> {
     let b = base_of(op);
     let all9 = ["i32", "i64", "u8", "usize", "f64", "bool", "str", "t2", "isize", "i8"];
-    if OPS_STD.contains(&op) { return all9.to_vec(); }
+    if OPS_STD.contains(&op) || OPS_ST.contains(&op) { return all9.to_vec(); }
     if is_str_op(op) { return vec!["str"]; }
     if ["new", "create", "single", "flat", "empty"].contains(&op) || OPS_ALL.contains(&op) { return all9.to_vec(); }
     if b == "unpack_bits" || b == "pack_bits" { return vec!["u8"]; }
@@ -1435,6 +1634,7 @@ fn gen_all(tier: &str, seed: u64, out: &mut dyn FnMut(String)) {
         emit_chain(&g, out);
     }
     gen_part2(thorough, seed, out);
+    gen_part5(thorough, seed, out);
     // the last case reports (and demands) the validations of the native shape oracle against the model and the A-B-A re-runs
     out("oracle_validations single|#i64".to_string());
 }
@@ -1524,7 +1724,10 @@ fn gen_part2(thorough: bool, seed: u64, out: &mut dyn FnMut(String)) {
                    "squeeze|@7|none".to_string(), "map|@0".to_string(), "roll|@0|3|none".to_string(), "repeat|@0|2|none".to_string(), "filter_e|@0|3|1".to_string(), "append|@0|@0|none".to_string(),
                    format!("reshape|@0|{}", n + 1), format!("reshape|@0|{},2", n / 2 + 1), "atleast|@0|6".to_string(), "count_nonzero|@0|none|none".to_string(),
                    "u.it_collect|@0".to_string(), "u.it_filter|@0|2|1".to_string(), "u.it_ref|@0".to_string(), "u.clone|@0".to_string(), "u.clone_from|@3|@0|direct".to_string(), "u.clone_from|@0|@3|direct".to_string(),
-                   "u.it_take_while|@0|16385".to_string(), "u.it_chain|@0|@3".to_string()] { g.push(st); }
+                   "u.it_take_while|@0|16385".to_string(), "u.it_chain|@0|@3".to_string(),
+                   // part 5: closures with memory on the huge arrays (the counting closure is a modelled step; `seen` only where the alphabet is small)
+                   "filter_e|@0|7|3|cnt".to_string(), "filter|@0|5|2|cnt".to_string(), "filter_map_e|@0|3|1|cnt".to_string(), "map_e|@0|cnt".to_string(), "u.st_filter_e|@0|first|1000|0".to_string(),
+                   format!("u.st_filter|@0|{}", if ["u8", "bool", "i8"].contains(&ty) { "seen|0|0" } else { "budget|77|0" }), format!("u.st_filter_map_e|@0|first|{}|0", n - 1), "u.st_map|@0|cnt|3|1".to_string(), "u.st_fold|@0|-0".to_string()] { g.push(st); }
         // (the model of broadcast_to is quadratic in the SOURCE size: a one-element source)
         let one = g.push(format!("new|1|5|{}|#{}", show_list(&vec![1; r.min(3)]), ty));
         g.push(format!("broadcast_to|@{}|{}", one, show_list(s)));
@@ -1575,6 +1778,183 @@ fn gen_part2(thorough: bool, seed: u64, out: &mut dyn FnMut(String)) {
     }
 }
 
+/// robustness streams, part 5 (after the fifth round of seeded changes): (23) closures whose answers change between calls,
+/// (24) axis lists that name one axis twice in the two spellings (k and k - rank) or hold an invalid entry next to valid ones
+fn gen_part5(thorough: bool, seed: u64, out: &mut dyn FnMut(String)) {
+    let prod = |s: &[usize]| s.iter().product::<usize>();
+    let all10 = ["i64", "u8", "f64", "str", "bool", "i32", "t2", "i8", "usize", "isize"];
+    let gty = |ty: &'static str| -> &'static str { if ty == "isize" { "i64" } else { ty } };
+    // (xi) every closure-taking operation x every kind of closure memory, on a sawtooth array (repeated values: a short array cycled into
+    //      the base shape) and on an array of distinct values; ten element types x base shapes incl. rank 0, zero-length axes, 300 elements
+    let bases: Vec<Vec<usize>> = vec![vec![], vec![0], vec![1], vec![4], vec![8], vec![2, 3], vec![3, 3], vec![2, 0], vec![2, 2, 2], vec![2, 3, 4], vec![1, 2, 1, 2], vec![0, 0], vec![33], vec![5, 7], vec![300]];
+    let st_ops = ["st_filter", "st_filter_e", "st_filter_map", "st_filter_map_e", "st_map", "st_map_e"];
+    for (ti, ty) in all10.iter().enumerate() {
+        for (bi, base) in bases.iter().enumerate() {
+            let (n, r) = (prod(base), base.len());
+            let kinds: Vec<(&str, usize, usize)> = vec![("cnt", 2, 1), ("cnt", 3, 2), ("cnt", 3, 0), ("cnt", 4, 3), ("first", 0, 0), ("first", 1, 0), ("first", n / 2, 0), ("first", n, 0), ("first", n + 1, 0),
+                ("seen", 0, 0), ("budget", 1, 0), ("budget", 3, 0), ("run", 0, 0), ("toggle", 0, 0)];
+            let start = |g: &mut G| { let k = 2 + g.rng.below(3); let off = g.rng.range(-2, 3); g.push(format!("new|{k}|{off}|{k}|#{ty}")); g.push(format!("resize|@0|{}", show_list(base))); g.fresh(ty, base); };
+            // (a) monitor + native expectation (`u.st_*`)
+            let mut g = G::new(0x5EA7 + (ti * 100 + bi) as u64, gty(ty)); g.big = true; g.r5 = true;
+            start(&mut g);
+            for src in [1usize, 2] {
+                for (oi, op) in st_ops.iter().enumerate() { for (ki, (k, p, q)) in kinds.iter().enumerate() {
+                    if src == 2 && (oi + ki + ti) % 3 != 0 { continue; }
+                    g.push(format!("u.{op}|@{src}|{k}|{p}|{q}"));
+                } }
+                for sd in ["nan", "inf", "-inf", "-0", "0", "max", "tiny"] { if src == 1 || sd == "nan" { g.push(format!("u.st_fold|@{src}|{sd}")); } }
+                g.push(format!("u.st_for_each|@{src}")); g.push(format!("u.st_for_each_e|@{src}"));
+                if src == 1 { for ax in 0..=r { let d = base.get(ax).copied().unwrap_or(1); for f in ["alt".to_string(), "grow0".to_string(), "grow1".to_string(), format!("grow{d}"), "once0".to_string(), format!("once{}", d + 1)] { g.push(format!("u.st_apply|@1|{ax}|{f}")); } } }
+            }
+            // the results travel on through the chain
+            let last = g.store.len();
+            for k in [3usize, 8, 12, 13, 20, 40] { if k < last && !matches!(g.store[k], V::Nil | V::L(_) | V::Opq(_)) { g.push(format!("ravel|@{k}")); g.push(format!("atleast|@{k}|2")); g.push(format!("transpose|@{}|none", g.store.len() - 1)); } }
+            emit_chain(&g, out);
+            // (b) the counting closure through the modelled steps: the store machine predicts the shape
+            let mut g = G::new(0x5EA8 + (ti * 100 + bi) as u64, gty(ty)); g.big = true; g.r5 = true;
+            start(&mut g);
+            for src in [1usize, 2] {
+                for (m, t) in [(2usize, 1usize), (3, 1), (3, 2), (4, 3), (1, 0), (1, 1), (n + 1, n / 2), (n + 1, n), (5, 2), (7, 3)] {
+                    for op in ["filter_e", "filter", "filter_map_e", "filter_map"] { g.push(format!("{op}|@{src}|{m}|{t}|cnt")); }
+                }
+                g.push(format!("map|@{src}|cnt")); g.push(format!("map_e|@{src}|cnt"));
+                for ax in 0..=r { g.push(format!("apply_along_axis|@{src}|{ax}|alt")); }
+            }
+            let last = g.store.len();
+            for k in [3usize, 5, 9, 14, 30] { if k < last && !matches!(g.store[k], V::Nil | V::L(_) | V::Opq(_)) { g.push(format!("reshape|@{k}|{}", show_list(&g.sh(k)))); g.push(format!("expand_dims|@{k}|0")); } }
+            emit_chain(&g, out);
+        }
+    }
+    // (xii) axis lists: for ranks 2..5 (two shapes each, one with all axes equal: a wrong permutation is then still consistent and only the
+    //       shape tie sees it), EVERY ordered pair of positions of the list names one axis in both spellings; an out-of-range entry
+    //       (rank, -rank-1) at every position next to valid ones; transpose, moveaxis (source, destination), flip, roll, rot90,
+    //       expand_dims, squeeze, norm; and every value -rank-2 ..= rank+1 for the single-axis arguments
+    let shapes: Vec<Vec<usize>> = vec![vec![2, 3], vec![3, 3], vec![2, 3, 4], vec![2, 2, 2], vec![2, 3, 1, 2], vec![2, 2, 2, 2], vec![2, 1, 3, 2, 2], vec![2, 2, 2, 2, 2], vec![1, 3, 1], vec![1, 1], vec![2, 1, 1, 3], vec![1, 2, 1, 1, 2], vec![2, 0, 3]];
+    let sp = |x: usize, neg: bool, r: usize| -> isize { if neg { x as isize - r as isize } else { x as isize } };
+    for (si, s) in shapes.iter().enumerate() {
+        let r = s.len();
+        let tys: Vec<&'static str> = if thorough { all10.to_vec() } else { vec![all10[si % 10], all10[(si + 3) % 10], all10[(si + 6) % 10]] };
+        for (ti, ty) in tys.iter().enumerate() {
+            let perms: Vec<Vec<usize>> = { let id: Vec<usize> = (0..r).collect(); let mut rev = id.clone(); rev.reverse(); let mut rot = id.clone(); rot.rotate_left(1); let mut v = vec![id, rev, rot]; v.dedup(); v.sort(); v.dedup(); v };
+            // transpose
+            let mut g = G::new(0xD0B1 + (si * 10 + ti) as u64, gty(ty)); g.r3 = true; g.r5 = true;
+            g.fresh(ty, s);
+            for (pi, p) in perms.iter().enumerate() {
+                for a in 0..r { for b in 0..r { if a == b { continue; } for var in 0..3 {
+                    // var 0: the others non-negative, position b = p[a] - r; var 1: position a negative, b non-negative; var 2: the others in random spellings
+                    let mut v: Vec<isize> = (0..r).map(|k| sp(p[k], var == 2 && (k + pi + a) % 2 == 0, r)).collect();
+                    match var { 0 => { v[a] = sp(p[a], false, r); v[b] = sp(p[a], true, r); } 1 => { v[a] = sp(p[a], true, r); v[b] = sp(p[a], false, r); } _ => { v[b] = if v[a] >= 0 { v[a] - r as isize } else { v[a] + r as isize }; } }
+                    g.push(format!("transpose|@0|{}", show_list(&v)));
+                } } }
+                for b in 0..r { for bad_entry in [r as isize, -(r as isize) - 1] { let mut v: Vec<isize> = (0..r).map(|k| sp(p[k], (k + b) % 2 == 0, r)).collect(); v[b] = bad_entry; g.push(format!("transpose|@0|{}", show_list(&v))); } }
+                g.push(format!("transpose|@0|{}", show_list(&p.iter().enumerate().map(|(k, &x)| sp(x, k % 2 == 1, r)).collect::<Vec<_>>())));
+            }
+            let ok: Vec<usize> = (1..g.store.len()).filter(|&k| !matches!(g.store[k], V::Nil)).collect();
+            if let Some(&k) = ok.last() { g.push(format!("ravel|@{k}")); g.push(format!("transpose|@{k}|none")); }
+            emit_chain(&g, out);
+            // moveaxis / flip / roll / rot90 / expand_dims / squeeze / norm
+            let mut g = G::new(0xD0B2 + (si * 10 + ti) as u64, gty(ty)); g.r3 = true; g.r5 = true;
+            g.fresh(ty, s);
+            for x in 0..r { for y in 0..r {
+                let (xn, xp, yn, yp) = (sp(x, true, r), sp(x, false, r), sp(y, true, r), sp(y, false, r));
+                if x == y {
+                    // the same axis twice: both spellings in both orders, then the single spellings
+                    for (u, w) in [(xp, xn), (xn, xp), (xp, xp), (xn, xn)] {
+                        g.push(format!("flip|@0|{u},{w}")); g.push(format!("roll|@0|1,2|{u},{w}")); g.push(format!("rot90|@0|1|{u},{w}")); g.push(format!("squeeze|@0|{u},{w}"));
+                        let z = (x + 1) % r;
+                        g.push(format!("moveaxis|@0|{u},{w}|{},{}", z, sp(x, false, r))); g.push(format!("moveaxis|@0|{},{}|{u},{w}", z, sp(x, true, r)));
+                        g.push(format!("moveaxis|@0|{u},{w}|{u},{w}"));
+                    }
+                } else {
+                    // three entries: x, y and x again in the other spelling, at every position of the repeat
+                    for (l, sh3) in [(vec![xp, yp, xn], "1,2,3"), (vec![xn, yn, xp], "1,2,3"), (vec![xp, xn, yp], "3,1,2"), (vec![yn, xp, xn], "2,2,2")] {
+                        g.push(format!("flip|@0|{}", show_list(&l))); g.push(format!("roll|@0|{sh3}|{}", show_list(&l))); g.push(format!("squeeze|@0|{}", show_list(&l)));
+                        if r >= 3 { let z = (0..r).find(|&k| k != x && k != y).unwrap(); g.push(format!("moveaxis|@0|{}|{},{},{}", show_list(&l), y, z, x)); g.push(format!("moveaxis|@0|{},{},{}|{}", z, x, y, show_list(&l))); }
+                    }
+                    // valid mixed spellings next to them
+                    g.push(format!("squeeze|@0|{xp},{yn}")); g.push(format!("squeeze|@0|{yn},{xp}")); g.push(format!("flip|@0|{xp},{yn}")); g.push(format!("roll|@0|1,-1|{xn},{yp}")); g.push(format!("rot90|@0|1|{xp},{yn}")); g.push(format!("rot90|@0|3|{xn},{yp}")); g.push(format!("moveaxis|@0|{xp},{yn}|{yp},{xn}"));
+                    // an out-of-range entry next to a valid one
+                    for bad_entry in [r as isize, -(r as isize) - 1] { g.push(format!("flip|@0|{xp},{bad_entry}")); g.push(format!("roll|@0|1,1|{bad_entry},{yn}")); g.push(format!("rot90|@0|1|{xn},{bad_entry}")); g.push(format!("squeeze|@0|{bad_entry},{yp}")); g.push(format!("moveaxis|@0|{xp},{bad_entry}|{yp},{xn}")); g.push(format!("moveaxis|@0|{xp},{yn}|{bad_entry},{xn}")); }
+                }
+            } }
+            // expand_dims: positions of the RESULT rank (r + number of entries)
+            for cnt in [2usize, 3] { let fr = r + cnt; for x in 0..fr { for y in 0..fr {
+                if cnt == 2 && x == y { for (u, w) in [(sp(x, false, fr), sp(x, true, fr)), (sp(x, true, fr), sp(x, false, fr))] { g.push(format!("expand_dims|@0|{u},{w}")); } }
+                if cnt == 2 && x != y && (x + y) % 2 == 0 { g.push(format!("expand_dims|@0|{},{}", sp(x, true, fr), sp(y, false, fr))); }
+                if cnt == 3 && x != y && (x + 2 * y + si) % 3 == 0 { g.push(format!("expand_dims|@0|{},{},{}", sp(x, false, fr), sp(y, true, fr), sp(x, true, fr))); g.push(format!("expand_dims|@0|{},{},{}", sp(y, false, fr), sp(x, true, fr), sp(x, false, fr))); }
+            } }
+                for bad_entry in [fr as isize, -(fr as isize) - 1] { g.push(format!("expand_dims|@0|0,{bad_entry}")); if cnt == 3 { g.push(format!("expand_dims|@0|{bad_entry},-1,1")); } }
+            }
+            emit_chain(&g, out);
+            // norm (monitor-only) and the single-axis arguments
+            let nty = ["i64", "f64", "i32"][(si + ti) % 3];
+            let mut g = G::new(0xD0B3 + (si * 10 + ti) as u64, nty); g.r3 = true; g.r5 = true;
+            g.fresh(nty, s);
+            for x in 0..r { for y in 0..r { let (xn, xp, yn) = (sp(x, true, r), sp(x, false, r), sp(y, true, r));
+                if x == y { for ord in ["none", "fro", "1"] { for kd in ["none", "true"] { g.push(format!("u.norm|@0|{ord}|{xp},{xn}|{kd}")); g.push(format!("u.norm|@0|{ord}|{xn},{xp}|{kd}")); } } }
+                else { g.push(format!("u.norm|@0|none|{xp},{yn}|none")); g.push(format!("u.norm|@0|fro|{xn},{yn}|true")); g.push(format!("u.norm|@0|1|{xp},{}|false", r)); }
+            } }
+            for ax in -(r as isize) - 2..=r as isize + 1 {
+                // (max / min of an array without elements: the model panics where the crate refuses - recorded, not judged, and the comparison of the chain would stop there)
+                for op in ["sum", "prod", "nansum", "max", "min", "amax", "nanmin", "cumsum", "cumprod", "nancumsum"] { if prod(s) == 0 && ["max", "min", "amax", "nanmin"].contains(&op) { continue; } g.push(format!("{op}|@0|{ax}")); }
+                for kd in ["none", "true", "false"] { g.push(format!("count_nonzero|@0|{ax}|{kd}")); g.push(format!("argmax|@0|{ax}|{kd}")); g.push(format!("argmin|@0|{ax}|{kd}")); }
+                g.push(format!("sort|@0|{ax}|none")); g.push(format!("argsort|@0|{ax}|s:mergesort")); g.push(format!("unique|@0|{ax}")); g.push(format!("rollaxis|@0|{ax}|none")); g.push(format!("rollaxis|@0|0|{ax}"));
+                g.push(format!("swapaxes|@0|{ax}|0")); g.push(format!("swapaxes|@0|-1|{ax}")); g.push(format!("u.norm|@0|none|{ax}|none")); g.push(format!("diff|@0|1|{ax}|none|none")); g.push(format!("u.unwrap_phase|@0|{ax}"));
+            }
+            emit_chain(&g, out);
+        }
+    }
+    // (xiv) class 20, sizes above 2^24 (where `as f32` arithmetic on a count stops being exact) for the cheap operations: byte-sized element
+    //       types, a few steps per chain (every chain well under a second), `u.` steps judged by the monitor and the native shape oracle
+    //       (validated against the model on the modelled steps of the run); the model store keeps no entry for these results (`=G`).
+    //       (broadcast_to is not among them: the crate needs 2.7 s for 2^24 elements - cost, see the TIMING RULE)
+    let big = (1usize << 24) + 1;
+    let mut giant: Vec<(&str, Vec<String>)> = vec![
+        ("u8", vec!["new|2|0|2|#u8".into(), format!("u.resize|@0|{big}"), "u.resize|@1|3".into()]),
+        ("u8", vec!["new|3|1|3|#u8".into(), format!("u.cycle_take|@0|{big}"), "u.ravel|@1".into()]),
+        ("u8", vec!["new|2|0|2|#u8".into(), format!("u.repeat|@0|{}|none", big / 2 + 1), format!("u.reshape|@1|2,{}", big / 2 + 1)]),
+        ("u8", vec![format!("u.zeros|{big}|#u8"), format!("u.reshape|@0|1,{big}"), format!("u.reshape|@0|{}", big - 1)]),
+        ("u8", vec![format!("u.ones|{big}|#u8"), "u.flip|@0|none".into()]),
+        ("u8", vec![format!("u.full|{big}|#u8"), "u.map|@0".into(), "u.filter_e|@0|2|1|cnt".into()]),
+        ("u8", vec![format!("u.new|{big}|0|{big}|#u8"), format!("u.reshape|@0|{big},1"), "u.filter_map_e|@0|3|1".into()]),
+    ];
+    if thorough { for ty in ["bool", "i8"] { let b3 = big + 2;
+        giant.push((ty, vec![format!("new|2|0|2|#{ty}"), format!("u.resize|@0|{b3}"), "u.ravel|@1".into()]));
+        giant.push((ty, vec![format!("new|1|1|1,1|#{ty}"), format!("u.cycle_take|@0|{b3}"), format!("u.reshape|@1|{b3},1,1")]));
+        giant.push((ty, vec![format!("u.new|{b3}|0|1,{b3}|#{ty}"), "u.map_e|@0".into(), "u.filter_e|@0|5|2".into()]));
+    } }
+    for (gi, (ty, steps)) in giant.into_iter().enumerate() {
+        let mut g = G::new(0x61A7 + gi as u64, gty(ty)); g.big = true;
+        for st in steps { g.push(st); }
+        emit_chain(&g, out);
+    }
+    // (xiii) seeded random chains in which the closure-taking steps carry closures with memory and a third of the axis lists name an axis twice
+    let (n_chains, max_len) = if thorough { (12000, 30) } else { (4000, 12) };
+    let ops = all_ops();
+    let closure_ops = ["filter_e", "filter_map_e", "filter", "filter_map", "map", "map_e", "apply_along_axis"];
+    let axis_ops = ["transpose", "moveaxis", "flip", "roll", "rot90", "expand_dims", "squeeze", "u.norm"];
+    let mut top = Rng::new(seed ^ 0x57A7_E5);
+    for c in 0..n_chains {
+        let ty = TYPES2[top.below(TYPES2.len())];
+        let mut g = G::new(top.next() ^ c as u64, ty); g.r5 = true; g.r3 = c % 3 == 0;
+        let len = 2 + g.rng.below(max_len);
+        let s0 = g.shape(); g.fresh(ty, &s0);
+        // a second base with repeated values
+        if g.coin(50) { let s1 = g.shape(); g.push(format!("resize|@0|{}", show_list(&s1))); }
+        let mut tries = 0;
+        while g.steps.len() < len && tries < 4 * max_len {
+            tries += 1;
+            match g.rng.below(10) {
+                0..=2 => { let op = OPS_ST[g.rng.below(OPS_ST.len())]; g.emit(op); }
+                3..=4 => { let op = closure_ops[g.rng.below(closure_ops.len())]; g.emit(op); }
+                5..=7 => { let op = axis_ops[g.rng.below(axis_ops.len())]; if g.coin(50) { g.emit_long(op); } else { g.emit(op); } }
+                _ => { let op = ops[g.rng.below(ops.len())].clone(); g.emit(&op); }
+            }
+        }
+        emit_chain(&g, out);
+    }
+}
+
 // ---------------------------------------------------------------- exec: re-run the chain, monitor, compare with the model
 
 fn step_refs(step: &str) -> Vec<usize> {
@@ -1608,11 +1988,15 @@ fn shrink(steps: &[&str], k: usize) -> Vec<String> {
 /// 140 000 elements, emitted as `u.` steps and judged by this oracle: the result shape written down directly from the
 /// operation's documented meaning.  The oracle is VALIDATED AGAINST THE MODEL on every modelled step of the same run it
 /// applies to (thousands of smaller cases; counted, and the run fails if the count is zero or any validation disagrees).
-/// `None` = the oracle does not speak about this call (invalid arguments, empty arrays, rank-1 reductions, ...).
+/// `None` = the oracle does not speak about this call (invalid arguments, empty arrays, rank-1 reductions, ...); where it speaks, a
+/// REFUSAL of the crate is a disagreement as well (and a refusal of the model on a modelled step a failed validation).
 fn native_rec(st: &[V], name: &str, a: &[&str]) -> Option<String> {
     let sh = |k: usize| -> Option<Vec<usize>> { let v = get(st, a.get(k)?)?; if matches!(v, V::L(_) | V::Nil) { None } else { shape_of(v) } };
     let norm = |ax: isize, r: usize| -> Option<usize> { let x = if ax < 0 { ax + r as isize } else { ax }; if x >= 0 && (x as usize) < r { Some(x as usize) } else { None } };
     let arr = |t: &[usize]| format!("A{}", show_list(t));
+    // constructors (part 5, sizes above 2^24)
+    if ["zeros", "ones", "full"].contains(&name) { let t = ul(a[0]); return if t.iter().product::<usize>() == 0 { None } else { Some(arr(&t)) }; }
+    if name == "new" { let (n, t) = (us(a[0]), ul(a[2])); return if n == 0 || n != t.iter().product::<usize>() { None } else { Some(arr(&t)) }; }
     let s = if name == "concatenate" { vec![] } else { sh(0)? };
     let (r, n) = (s.len(), s.iter().product::<usize>());
     if name != "concatenate" && n == 0 { return None; }
@@ -1624,6 +2008,17 @@ fn native_rec(st: &[V], name: &str, a: &[&str]) -> Option<String> {
                 let mut seen = vec![false; r]; for &k in &q { if seen[k] { return None; } seen[k] = true; } Some(arr(&q.iter().map(|&k| s[k]).collect::<Vec<_>>())) }
         },
         "swapaxes" => { let (i, j) = (norm(is(a[1]), r)?, norm(is(a[2]), r)?); let mut t = s.clone(); t.swap(i, j); Some(arr(&t)) }
+        // the cheap operations that run above 2^24 elements (part 5)
+        "resize" => { let t = ul(a[1]); if t.iter().product::<usize>() == 0 { None } else { Some(arr(&t)) } }
+        "reshape" => { let t = ul(a[1]); if t.iter().product::<usize>() != n { None } else { Some(arr(&t)) } }
+        "ravel" => Some(arr(&[n])),
+        "cycle_take" => { let k = us(a[1]); if k == 0 { None } else { Some(arr(&[k])) } }
+        "repeat" => { if a[2] != "none" { return None; } let reps = ul(a[1]); if reps.len() != 1 || reps[0] == 0 { return None; } Some(arr(&[n * reps[0]])) }
+        "broadcast_to" => { let t = ul(a[1]); if t.len() < r || t.iter().product::<usize>() == 0 { return None; } let off = t.len() - r;
+            if (0..r).any(|k| s[k] != t[off + k] && s[k] != 1) { return None; } Some(arr(&t)) }
+        "flip" => { if a[1] != "none" { return None; } Some(arr(&s)) }
+        "map" | "map_e" => Some(arr(&s)),
+        "filter_e" | "filter_map_e" => { let (m, t) = (us(a[1]).max(1), us(a[2])); let c = (n / m) * t.min(m) + (n % m).min(t); if c == 0 { None } else { Some(arr(&[c])) } }
         "sum" | "prod" | "max" | "min" | "amax" | "amin" => match oisz(a[1]) { None => Some(arr(&[1])), Some(ax) => { if r < 2 { return None; } Some(arr(&without(norm(ax, r)?))) } },
         "cumsum" | "cumprod" => match oisz(a[1]) { None => Some(arr(&[n])), Some(ax) => { norm(ax, r)?; Some(arr(&s)) } },
         "sort" | "argsort" => { if a[2] != "none" && kind_enum(a[2].strip_prefix("s:")?).is_none() { return None; } match oisz(a[1]) { None => Some(arr(&[n])), Some(ax) => { norm(ax, r)?; Some(arr(&s)) } } }
@@ -1672,6 +2067,12 @@ fn run_chain(steps: &[&str]) -> (Vec<String>, Vec<(usize, String)>, Vec<Option<S
     (recs, bad, natives)
 }
 fn label_of(step: &str) -> &str { step.split('|').next().unwrap_or("") }
+/// the result record of a `u.` step as it is written into the case line: an array above 2^22 elements is written `G<shape>` - the
+/// model store keeps no entry for it (the driver answers `X`), so that the Lean side never builds a list of 16 million tags
+fn ext_field(rec: &str) -> String {
+    if let Some(sh) = rec.strip_prefix('A') { if sh != "-" && sh.split(',').filter_map(|x| x.parse::<usize>().ok()).product::<usize>() > (1 << 22) { return format!("G{sh}"); } }
+    rec.to_string()
+}
 
 thread_local! {
     static PREV_CHAIN: RefCell<Option<(String, Vec<String>)>> = const { RefCell::new(None) };
@@ -1719,10 +2120,10 @@ fn exec(_op: &str, args: &[&str], expected: &str) -> Option<Verdict> {
         if name.starts_with("u.") {
             // recorded at generation time; a different shape now means the real run is not reproducible -> stop comparing
             let want = args[k].rsplit('|').next().unwrap_or("");
-            let now = match o { "E" | "P" | "S" | "N" => "=N".to_string(), x => format!("={}", x) };
+            let now = match o { "E" | "P" | "S" | "N" => "=N".to_string(), x => format!("={}", ext_field(x)) };
             if want != now { open = Some(format!("step {} `{}`: unmodelled call answered {} now, {} when generated", k, args[k], now, want)); break; }
             // the native shape oracle judges the `u.` forms of the operations whose model is quadratic (huge arrays)
-            if let Some(nr) = &natives[k] { if o.starts_with('A') || o.starts_with('L') {
+            if let Some(nr) = &natives[k] { if o.starts_with('A') || o.starts_with('L') || o == "E" {
                 ORACLE_JUDGED.fetch_add(1, std::sync::atomic::Ordering::Relaxed);
                 if o != nr { return Some(Verdict::Mismatch { observed, detail: format!("step {} `{}`: real crate {} , native shape oracle {} (oracle validated against the model on {} steps so far)", k, args[k], o, nr, ORACLE_VALIDATED.load(std::sync::atomic::Ordering::Relaxed)) }); }
             } }
@@ -1730,7 +2131,7 @@ fn exec(_op: &str, args: &[&str], expected: &str) -> Option<Verdict> {
         }
         if e == o {
             // ... and is itself validated against the model on every modelled step it speaks about
-            if let Some(nr) = &natives[k] { if e.starts_with('A') || e.starts_with('L') {
+            if let Some(nr) = &natives[k] { if e.starts_with('A') || e.starts_with('L') || e == "E" {
                 ORACLE_VALIDATED.fetch_add(1, std::sync::atomic::Ordering::Relaxed);
                 if e != nr { return Some(Verdict::Mismatch { observed, detail: format!("step {} `{}`: the harness-native shape oracle says {} but the model {} (the oracle is wrong: fix the harness)", k, args[k], nr, e) }); }
             } }
